@@ -81,6 +81,14 @@ func (d *disk) txCommit() {
 	d.overlay = map[uint64][]byte{}
 }
 
+// has reports whether the open transaction sees a stored page (attribution of the known finding only).
+func (d *disk) has(page uint64) bool {
+	if b, inTx := d.overlay[page]; inTx {
+		return b != nil
+	}
+	return d.durable[page] != nil
+}
+
 func (d *disk) rollback() { d.overlay = map[uint64][]byte{} }
 
 // view is the Committer handed to the trie for the lifetime of one transaction.
